@@ -71,6 +71,32 @@ func (E *Engine) shortName(f *ssa.Function) string {
 
 // VerifyFunc generates all obligations of one function under contract.
 func (E *Engine) VerifyFunc(key string, props []string) (err error) {
+	// a helper that turns out not to be executable in place is excluded and the function redone
+	for try := 0; ; try++ {
+		nOb, nNotes, nDef := len(E.Obligs), len(E.Notes), len(E.Deferred)
+		retry := false
+		func() {
+			defer func() {
+				if r := recover(); r != nil {
+					if ie, ok := r.(inlineErr); ok && try < 8 {
+						E.noInline[ie.fn] = true
+						E.Obligs, E.Notes, E.Deferred = E.Obligs[:nOb], E.Notes[:nNotes], E.Deferred[:nDef]
+						E.dry, E.dryLoops, E.dryEsc, E.fragment = 0, nil, nil, false
+						retry = true
+						return
+					}
+					panic(r)
+				}
+			}()
+			err = E.verifyFunc1(key, props)
+		}()
+		if !retry {
+			return err
+		}
+	}
+}
+
+func (E *Engine) verifyFunc1(key string, props []string) (err error) {
 	fn := E.Funcs[key]
 	spec := E.CS.Funcs[key]
 	if fn == nil {
@@ -88,6 +114,9 @@ func (E *Engine) VerifyFunc(key string, props []string) (err error) {
 	E.cur = c
 	defer func() {
 		if r := recover(); r != nil {
+			if ie, ok := r.(inlineErr); ok {
+				panic(ie)
+			}
 			if ee, ok := r.(engineErr); ok {
 				err = fmt.Errorf("%s: outside supported subset: %s", c.short, string(ee))
 				return
@@ -117,6 +146,9 @@ func (E *Engine) VerifyFunc(key string, props []string) (err error) {
 		return fmt.Errorf("%s: no complete path", c.short)
 	}
 	E.labelVacuity(c)
+	if len(spec.Captured) > 0 {
+		E.verifyCaptured(c)
+	}
 	return nil
 }
 
@@ -213,8 +245,15 @@ func (E *Engine) entryState(c *fnCtx, suffix string) *State {
 		c.paramList = append(c.paramList, v)
 		c.inputs = append(c.inputs, E.inputTerms(st, p.Name()+suffix, v)...)
 	}
+	frozen := E.frozenFreeVars(fn)
 	for _, fv := range fn.FreeVars {
 		v := E.freshVal(fv.Type(), "fv:"+fv.Name()+suffix, &facts)
+		if frozen[fv] && v.F == nil && v.S != "" {
+			if pt, isPtr := types.Unalias(fv.Type()).Underlying().(*types.Pointer); isPtr && !strings.HasPrefix(E.rootName(pt.Elem()), "box<") {
+				// out of every callee's reach (fragment.go): kept across havoc like a private object
+				E.privNew(st, v.S, E.rootName(pt.Elem())+"!")
+			}
+		}
 		facts = append(facts, E.allocFacts(st, v)...)
 		if pt, isPtr := types.Unalias(fv.Type()).Underlying().(*types.Pointer); isPtr && v.F == nil {
 			// a captured variable: a live cell of its own family
@@ -709,8 +748,12 @@ func (E *Engine) runFrom(st *State, b *ssa.BasicBlock, i int) {
 			E.doPanic(st, x)
 			return
 		}
+		if E.fragment && in == E.fragStop {
+			E.fragAt(st)
+			return
+		}
 		E.curInstr = in
-		alts := E.execInstr(st, in)
+		alts := E.execInstrGuarded(st, in)
 		if alts == nil {
 			continue
 		}
@@ -728,7 +771,7 @@ func (E *Engine) gotoBlock(st *State, to, from *ssa.BasicBlock) {
 	if E.dry > 0 {
 		// stay inside the innermost dry loop
 		li := E.dryLoops[len(E.dryLoops)-1]
-		if !li.Body[to] {
+		if !li.Body[to] && to.Parent() == E.cur.fn {
 			return
 		}
 		if to == li.Header {
@@ -773,6 +816,9 @@ func (E *Engine) val(st *State, v ssa.Value) *Val {
 		return &Val{T: x.Type(), Fn: &FnVal{Key: "builtin:" + x.Name()}}
 	}
 	r, ok := st.regs[v]
+	if (!ok || r == nil) && E.fragment {
+		return E.fragVal(st, v)
+	}
 	if !ok || r == nil {
 		panic(engineErr(fmt.Sprintf("value %s (%T) not defined on this path", v.Name(), v)))
 	}
@@ -1101,6 +1147,23 @@ func (E *Engine) addPow2Axioms(name string) {
 }
 
 func (E *Engine) site(in ssa.Instruction) string {
+	if fn := in.Parent(); fn != nil && E.cur != nil && fn != E.cur.fn {
+		// an instruction of a helper executed in place
+		ord := E.inlOrd[fn]
+		if ord == nil {
+			ord = map[ssa.Instruction]int{}
+			cnt := map[string]int{}
+			for _, b := range fn.Blocks {
+				for _, x := range b.Instrs {
+					t := fmt.Sprintf("%T", x)
+					ord[x] = cnt[t]
+					cnt[t]++
+				}
+			}
+			E.inlOrd[fn] = ord
+		}
+		return fmt.Sprintf("%s%d@%s", strings.TrimPrefix(fmt.Sprintf("%T", in), "*ssa."), ord[in], fn.Name())
+	}
 	return fmt.Sprintf("%s%d", strings.TrimPrefix(fmt.Sprintf("%T", in), "*ssa."), E.cur.ordinals[in])
 }
 
@@ -1209,4 +1272,29 @@ func isIntLit(s string) bool {
 		}
 	}
 	return true
+}
+
+// execInstrGuarded: an engine error raised by an instruction of a helper executed in place
+// disqualifies that helper (the enclosing function is redone without inlining it).
+func (E *Engine) execInstrGuarded(st *State, in ssa.Instruction) []*State {
+	if len(st.frames) == 0 {
+		return E.execInstr(st, in)
+	}
+	fn := st.frames[len(st.frames)-1].fn
+	if in.Parent() != fn {
+		return E.execInstr(st, in)
+	}
+	var alts []*State
+	func() {
+		defer func() {
+			if r := recover(); r != nil {
+				if ee, ok := r.(engineErr); ok {
+					panic(inlineErr{fn: fn, msg: string(ee)})
+				}
+				panic(r)
+			}
+		}()
+		alts = E.execInstr(st, in)
+	}()
+	return alts
 }
